@@ -1,7 +1,7 @@
 #!/bin/sh
-# usage: tools/confirm_seed.sh <id>   — independent confirmation of a seeded change (from /tmp/seed/<id>) in a scratch worktree
+# usage: tools/confirm_seed.sh <id> [<dir with patch.diff demo.rs>]  — independent confirmation of a seeded change in a scratch worktree
 set -u
-ID="$1"; SRC="/tmp/seed/$ID"; WT="/tmp/cs/$ID"
+ID="$1"; SRC="${2:-/tmp/seed/$ID}"; WT="/tmp/cs/$ID"
 rm -rf "$WT"; mkdir -p /tmp/cs
 git -C /repo worktree add -q "$WT" HEAD || exit 2
 cd "$WT"
